@@ -87,8 +87,7 @@ def same(m1, m2) -> bool:
 def cycle_ok(m, cycles=3) -> bool:
     d = _to_json(m)
     rd = GlencoeReader('unused')
-    m2 = rd._parse_tree(None, d['tree'], d['features'])
-    m2 = type(m)(m2, rd._parse_constraints(d['constraints'], d['features']))
+    m2 = rt.json_transform(GlencoeReader, d)
     if not same(m, m2):
         return False
     prev_d, prev_m = d, m2
@@ -96,8 +95,7 @@ def cycle_ok(m, cycles=3) -> bool:
         d2 = _to_json(prev_m)
         if d2 != prev_d:
             return False
-        root = rd._parse_tree(None, d2['tree'], d2['features'])
-        m3 = type(m)(root, rd._parse_constraints(d2['constraints'], d2['features']))
+        m3 = rt.json_transform(GlencoeReader, d2)
         if not same(prev_m, m3):
             return False
         prev_d, prev_m = d2, m3
@@ -189,7 +187,7 @@ def cycle_tree(tree):
     try:
         d = _to_json(m)
         rd = GlencoeReader('unused')
-        m2 = type(m)(rd._parse_tree(None, d['tree'], d['features']), rd._parse_constraints(d['constraints'], d['features']))
+        m2 = rt.json_transform(GlencoeReader, d)
         if not rt.ctcs_equivalent(m, m2, same_names=True):
             return ['constraint %r is read back as %r: not the same named, logically equivalent constraint' % (tree, [R.node_tree(c.ast.root) for c in m2.ctcs])]
         if _to_json(m2) != d:
@@ -232,7 +230,12 @@ def batches(tier, seed):
     nt = len(rt.ctc_family(FRAG_OPS, ['F0', 'F1', 'F2'], full))
     st = nt // 12 + 1
     b += [('batch_trees', [lo, lo + st, full]) for lo in range(0, nt, st)]
+    b.append(('batch_dups', []))
     return b
+
+
+def _noop():
+    pass
 
 
 def info(tier):
@@ -245,3 +248,16 @@ def info(tier):
                      'bounds': {'shapes': 'N<=%d within the fragment' % (4 if tier == 'quick' else 5)},
                      'stubs': ['json.dump / json.load']},
     }
+
+
+def replay_dups(k):
+    """near-duplicate constraints (repeated literally / differing by letter case of a name) through the real files."""
+    m = rt.dup_models()[k]
+    try:
+        return ['%s | constraints %r' % (b[:400], rt.DUP_CTC_SETS[k]) for b in file_roundtrip(m)]
+    except Exception as exc:
+        return ['round trip raises %s: %s (constraints %r)' % (type(exc).__name__, exc, rt.DUP_CTC_SETS[k])]
+
+
+def batch_dups():
+    return rt.dup_batch(__name__, 'glencoe-duplicate-constraints')
